@@ -99,6 +99,8 @@ type FT struct {
 	ssorts  map[string]string // state var -> sort
 	unsupp  []string
 	dropped []string // callee postconditions that could not be interpreted at a call site and were not assumed
+	topLoops int            // number of loops of the function under proof itself
+	adopted  map[string]int // loop of an inlined frame -> invariant group of the contract it adopted
 	assumed map[string]bool // external contracts used
 	havoced map[string]bool // external calls with no spec
 	inlined map[string]bool
@@ -1004,6 +1006,9 @@ func (ft *FT) runFrame(fr *frame, st *State, entryGuard string) {
 	for i, h := range hs {
 		fr.loopOrd[h] = i + 1
 	}
+	if fr.top {
+		ft.topLoops = len(hs)
+	}
 	order := rpo(fn)
 	for _, b := range order {
 		fr.curBlk = b
@@ -1143,6 +1148,9 @@ func (fr *frame) loopHeader(h *ssa.BasicBlock, body map[*ssa.BasicBlock]bool, st
 			ft.unsupported("loop %d invariant %q in %s: %v", ord, cl.Src, fr.fn, err)
 			continue
 		}
+		if isPureHint(cl.E) {
+			continue // hint(e) is true by definition: nothing to prove, the term is only planted at the loop head
+		}
 		ft.addObl(fr, "inv-init", fmt.Sprintf("%sL%d.%d", fr.tag, ord, i+1), reach, t, cl.Src, cl.Tags, hints).File = cl.File
 	}
 	// havoc
@@ -1209,6 +1217,12 @@ func (fr *frame) loopHeader(h *ssa.BasicBlock, body map[*ssa.BasicBlock]bool, st
 		fr.pendingLoopCover = append(fr.pendingLoopCover, h)
 	}
 	return nst
+}
+
+// isPureHint: the clause is just hint(e) - true by the definition of hint.
+func isPureHint(e Expr) bool {
+	c, ok := e.(*ECall)
+	return ok && c.Fn == "hint"
 }
 
 // counterLowerBound recognises `for i := c; ...; i += k` (k > 0, c and k constants): the header phi has the constant c on
@@ -1324,6 +1338,9 @@ func (fr *frame) backEdge(src, h *ssa.BasicBlock, st *State) {
 		t, err := env.EvalBool(cl.E)
 		if err != nil {
 			ft.unsupported("loop %d invariant %q: %v", ord, cl.Src, err)
+			continue
+		}
+		if isPureHint(cl.E) {
 			continue
 		}
 		o := ft.addObl(fr, "inv-pres", fmt.Sprintf("%sL%d.%d", fr.tag, ord, i+1), guard, t, cl.Src, cl.Tags, hints)
@@ -1556,9 +1573,46 @@ func (fr *frame) loopInvsAt(h *ssa.BasicBlock, ord int) []*Clause {
 	return invs
 }
 
+// adoptedInvs: a loop of an inlined callee without a contract adopts an invariant group of the function under proof that
+// no longer finds its loop there (the contract names loop k, the function has fewer than k loops): the situation after a
+// loop has been moved, with its variable names, into a new helper. The clauses are proved for the loop that adopts them
+// (inv-init / inv-pres obligations as usual), so adopting the wrong group cannot make anything provable that is false;
+// clauses that name variables the helper does not have make the function UNDECIDED, as any uninterpretable clause does.
+func (fr *frame) adoptedInvs(ord int) []*Clause {
+	ft := fr.ft
+	if fr.top || ft.c == nil || len(ft.c.Loops) == 0 {
+		return nil
+	}
+	key := fmt.Sprintf("%s/%d", fr.fn.String(), ord)
+	if k, ok := ft.adopted[key]; ok {
+		return ft.c.Loops[k]
+	}
+	var orphans []int
+	for k := range ft.c.Loops {
+		if k > ft.topLoops && len(ft.c.Loops[k]) > 0 {
+			orphans = append(orphans, k)
+		}
+	}
+	sort.Ints(orphans)
+	if ft.adopted == nil {
+		ft.adopted = map[string]int{}
+	}
+	used := map[int]bool{}
+	for _, k := range ft.adopted {
+		used[k] = true
+	}
+	for _, k := range orphans {
+		if !used[k] {
+			ft.adopted[key] = k
+			return ft.c.Loops[k]
+		}
+	}
+	return nil
+}
+
 func (fr *frame) loopInvs(ord int) []*Clause {
 	if fr.c == nil {
-		return nil
+		return fr.adoptedInvs(ord)
 	}
 	invs := fr.c.Loops[ord]
 	if len(invs) == 0 && fr.c.SpecDyn != nil {
